@@ -56,6 +56,7 @@ def cases(tier):
     yield dict(kind="lig-unnamed", tier=tier)
     yield dict(kind="lig-mismatch", tier=tier)
     yield dict(kind="lig-multires", tier=tier)
+    yield dict(kind="lig-scattered", tier=tier)
     yield dict(kind="split", tier=tier)
     yield dict(kind="split-run", tier=tier)
     yield dict(kind="split-reuse", tier=tier)
@@ -535,6 +536,46 @@ def check_lig_two(case):
     return viols, evals, keys
 
 
+def check_lig_scattered(case):
+    """ligand molecules named by their molecule name only, with the molecules of that name not standing next to each other in
+    [ molecules ]: the k-th host gets the k-th molecule of that name, every one of them ends one step from its host"""
+    viols, evals, keys = [], 0, []
+    resinfo = [("S", 1), ("B", 2), ("S", 3), ("B", 4)]
+    for mols in ([("W", 1), ("CH4", 1), ("W", 1), ("CH4", 1)], [("CH4", 1), ("W", 1), ("SOL", 1), ("CH4", 1), ("W", 1)],
+                 [("W", 1), ("SOL", 2), ("W", 1), ("CH4", 2)]):
+        sysd = dict(SYS, types=sorted({m for m, _ in mols}), molecules=mols, kwargs=dict(nrewind=2, maxiter=5))
+        flat = [m for m, c in mols for _ in range(c)]
+        hmols = [i for i, m in enumerate(flat) if m == "CH4"]
+        lmols = [i for i, m in enumerate(flat) if m == "W"]
+        for hspec, hr in (("CH4-B#2", 1), ("CH4-S#3", 2), ("-B#4", 3)):
+            for lspec in ("W", "W-W", "W-W#1"):
+                s2 = json.loads(json.dumps(sysd))
+                s2["kwargs"]["ligands"] = [[hspec, lspec]]
+                evals += 1
+                case1 = dict(kind="ligsc1", mols=[list(m) for m in mols], host=hspec, lig=lspec)
+                res = G.run_gen_coords(s2, Chooser([]))
+                if res["exc"] is not None:
+                    viols.append(crash_violation(res["exc"], case1, assertion="ligand-spec-accepted", tags=["ligand-molecules-not-adjacent"]))
+                    continue
+                want_atoms = G.expand_atoms(s2)
+                atoms = res["gro"][0] if res["gro"] else []
+                if [(x[0], x[1], x[2]) for x in atoms] != [(w[2], w[3], w[4]) for w in want_atoms]:
+                    viols.append(dict(assertion="molecule-list-unchanged", tags=["ligand-molecules-not-adjacent"], message=f"{mols} -lig {hspec}:{lspec}: output atoms differ", case=case1, detail={}))
+                    continue
+                pos = {}
+                for (mi, name, resid, resname, an), x in zip(want_atoms, atoms):
+                    pos[(mi, resid - 1)] = np.array(x[3])
+                box = np.array(s2["box"])
+                for hm, lm in zip(hmols, lmols):
+                    step = (G.DEFAULT_VOLUMES[resinfo[hr][0]] + G.DEFAULT_VOLUMES["W"]) / 2.0
+                    dist = np.linalg.norm(O.min_image(pos[(hm, hr)] - pos[(lm, 0)], box))
+                    if not abs(dist - step) <= 2e-3 and len(viols) < 20:
+                        viols.append(dict(assertion="ligand-one-step-from-host", tags=["ligand-molecules-not-adjacent"],
+                                          message=f"{mols} -lig {hspec}:{lspec}: ligand molecule {lm} is {dist:.4f} nm from host residue {(hm, hr)}, step {step}", case=case1, detail={}))
+                keys.append(f"ligsc:{mols}:{hspec}:{lspec}")
+    return viols, evals, keys
+
+
 # ------------------------------------------------------------------ -split
 def partitions(items):
     if not items:
@@ -681,7 +722,7 @@ def check_split_run(case):
     return viols, evals, keys
 
 
-FUNCS = {"lig-multires": check_lig_multires, "split-reuse": check_split_reuse, "lig-mismatch": check_lig_mismatch, "lig-unnamed": check_lig_unnamed, "lig-two": check_lig_two, "tags-dup": check_tags_dup, "pairdir": check_pair_directives, "tags": check_tags, "tags-multi": check_tags_multi, "start": check_start, "lig": check_lig, "split": check_split,
+FUNCS = {"lig-scattered": check_lig_scattered, "lig-multires": check_lig_multires, "split-reuse": check_split_reuse, "lig-mismatch": check_lig_mismatch, "lig-unnamed": check_lig_unnamed, "lig-two": check_lig_two, "tags-dup": check_tags_dup, "pairdir": check_pair_directives, "tags": check_tags, "tags-multi": check_tags_multi, "start": check_start, "lig": check_lig, "split": check_split,
          "split-run": check_split_run}
 
 
@@ -689,7 +730,7 @@ def run_case(case):
     kind = case["kind"]
     if kind not in FUNCS:
         # replay of single sub-cases is done by re-running the owning family (cheap) and filtering
-        fam = {"tags1": "tags", "tagsm1": "tags-multi", "pairdir1": "pairdir", "tagsdup1": "tags-dup", "lig2": "lig-two", "ligu1": "lig-unnamed", "ligm1": "lig-mismatch", "splitreuse1": "split-reuse", "ligmr1": "lig-multires", "start1": "start", "lig1": "lig", "split1": "split", "splitrun1": "split-run"}[kind]
+        fam = {"ligsc1": "lig-scattered", "tags1": "tags", "tagsm1": "tags-multi", "pairdir1": "pairdir", "tagsdup1": "tags-dup", "lig2": "lig-two", "ligu1": "lig-unnamed", "ligm1": "lig-mismatch", "splitreuse1": "split-reuse", "ligmr1": "lig-multires", "start1": "start", "lig1": "lig", "split1": "split", "splitrun1": "split-run"}[kind]
         out = []
         for part in range(4 if fam == "lig" else 1):
             c = dict(kind=fam, tier="quick", part=part, directive="sphere" if case.get("key") != "rw_options" else "rw")
